@@ -1,1 +1,297 @@
-// Verification-only module (cfg(kani)); harnesses are added here.
+// Verification-only module (cfg(kani)) for C05: the nonce reuse guard of RFC 9420
+// section 6.3.1 ("the first four bytes of the nonce are XORed with the reuse_guard").
+//
+// Contracts are stated at the harness (assume the precondition, call the REAL function,
+// assert the postcondition).  Guard and nonce BYTES are fully symbolic; the nonce LENGTH
+// ranges over 0..=16, which covers every AEAD nonce size of every cipher suite the library
+// supports (Nn = 12 for AES-GCM and ChaCha20-Poly1305); the harnesses are complete for
+// lengths 0..=16.
+use super::*;
+use alloc::vec::Vec;
+use mls_rs_core::crypto::{
+    CipherSuite, HpkeCiphertext, HpkeContextR, HpkeContextS, HpkePublicKey, HpkeSecretKey,
+    SignaturePublicKey, SignatureSecretKey,
+};
+use mls_rs_core::crypto::HpkePsk;
+use zeroize::Zeroizing;
+
+const MAX_NONCE: usize = 16;
+
+fn any_nonce() -> ([u8; MAX_NONCE], usize) {
+    let buf: [u8; MAX_NONCE] = kani::any();
+    let len: usize = kani::any();
+    kani::assume(len <= MAX_NONCE);
+    (buf, len)
+}
+
+/// ReuseGuard::apply(guard, nonce):
+///   ensures |out| == |nonce|
+///           out[i] == nonce[i] ^ guard[i]   for i < min(4, |nonce|)
+///           out[i] == nonce[i]              for 4 <= i < |nonce|
+#[kani::proof]
+#[kani::unwind(18)]
+fn c05_reuse_guard_apply() {
+    let g: [u8; REUSE_GUARD_SIZE] = kani::any();
+    let (buf, len) = any_nonce();
+    let nonce = &buf[..len];
+    let guard = ReuseGuard::from(g);
+
+    let out = guard.apply(nonce);
+
+    assert!(out.len() == len);
+    let mut i = 0;
+    while i < len {
+        if i < 4 {
+            assert!(out[i] == nonce[i] ^ g[i]);
+        } else {
+            assert!(out[i] == nonce[i]);
+        }
+        i += 1;
+    }
+    // the guard itself is not modified
+    let back: [u8; REUSE_GUARD_SIZE] = guard.into();
+    assert!(back == g);
+
+    // non-vacuity: every interesting shape is reachable
+    kani::cover!(len == 0);
+    kani::cover!(len == 3);
+    kani::cover!(len == 12 && out[0] != nonce[0] && out[3] != nonce[3]);
+    kani::cover!(len == 16 && out[15] == nonce[15]);
+}
+
+/// Involution: apply(guard, apply(guard, nonce)) == nonce  (the receiver recovers the
+/// key-schedule nonce from the transmitted guard; two different guards on the same nonce
+/// give two different AEAD nonces as soon as the nonce has at least 4 bytes).
+#[kani::proof]
+#[kani::unwind(18)]
+fn c05_reuse_guard_involution() {
+    let g: [u8; REUSE_GUARD_SIZE] = kani::any();
+    let (buf, len) = any_nonce();
+    let nonce = &buf[..len];
+    let guard = ReuseGuard::from(g);
+
+    let once = guard.apply(nonce);
+    let twice = guard.apply(&once);
+
+    assert!(twice.len() == len);
+    let mut i = 0;
+    while i < len {
+        assert!(twice[i] == nonce[i]);
+        i += 1;
+    }
+    kani::cover!(len == 12 && once[0] != nonce[0]);
+}
+
+/// Distinct guards separate nonces: for |nonce| >= 4, apply(g1, n) == apply(g2, n) iff g1 == g2.
+#[kani::proof]
+#[kani::unwind(18)]
+fn c05_reuse_guard_injective_in_guard() {
+    let g1: [u8; REUSE_GUARD_SIZE] = kani::any();
+    let g2: [u8; REUSE_GUARD_SIZE] = kani::any();
+    let (buf, len) = any_nonce();
+    kani::assume(len >= REUSE_GUARD_SIZE);
+    let nonce = &buf[..len];
+
+    let o1 = ReuseGuard::from(g1).apply(nonce);
+    let o2 = ReuseGuard::from(g2).apply(nonce);
+
+    let mut same = o1.len() == o2.len();
+    let mut i = 0;
+    while i < len {
+        if o1[i] != o2[i] {
+            same = false;
+        }
+        i += 1;
+    }
+    assert!(same == (g1 == g2));
+    kani::cover!(same);
+    kani::cover!(!same);
+}
+
+// ------------------------------------------------------------------ ReuseGuard::random
+// A provider that only implements `random_bytes`; every other method is unreachable from
+// `ReuseGuard::random` (the harness would fail on the `unreachable!` otherwise).
+#[derive(Debug)]
+struct RngErr;
+impl mls_rs_core::error::IntoAnyError for RngErr {}
+
+struct NoCtx;
+impl HpkeContextS for NoCtx {
+    type Error = RngErr;
+    fn seal(&mut self, _aad: Option<&[u8]>, _data: &[u8]) -> Result<Vec<u8>, RngErr> {
+        unreachable!()
+    }
+    fn export(&self, _c: &[u8], _len: usize) -> Result<Zeroizing<Vec<u8>>, RngErr> {
+        unreachable!()
+    }
+}
+impl HpkeContextR for NoCtx {
+    type Error = RngErr;
+    fn open(&mut self, _aad: Option<&[u8]>, _ct: &[u8]) -> Result<Zeroizing<Vec<u8>>, RngErr> {
+        unreachable!()
+    }
+    fn export(&self, _c: &[u8], _len: usize) -> Result<Zeroizing<Vec<u8>>, RngErr> {
+        unreachable!()
+    }
+}
+
+struct RngOnly {
+    fill: [u8; REUSE_GUARD_SIZE],
+    fail: bool,
+}
+
+impl CipherSuiteProvider for RngOnly {
+    type Error = RngErr;
+    type HpkeContextS = NoCtx;
+    type HpkeContextR = NoCtx;
+
+    fn cipher_suite(&self) -> CipherSuite {
+        unreachable!()
+    }
+    fn hash(&self, _data: &[u8]) -> Result<Vec<u8>, RngErr> {
+        unreachable!()
+    }
+    fn mac(&self, _key: &[u8], _data: &[u8]) -> Result<Vec<u8>, RngErr> {
+        unreachable!()
+    }
+    fn aead_seal(
+        &self,
+        _key: &[u8],
+        _data: &[u8],
+        _aad: Option<&[u8]>,
+        _nonce: &[u8],
+    ) -> Result<Vec<u8>, RngErr> {
+        unreachable!()
+    }
+    fn aead_open(
+        &self,
+        _key: &[u8],
+        _ciphertext: &[u8],
+        _aad: Option<&[u8]>,
+        _nonce: &[u8],
+    ) -> Result<Zeroizing<Vec<u8>>, RngErr> {
+        unreachable!()
+    }
+    fn aead_key_size(&self) -> usize {
+        unreachable!()
+    }
+    fn aead_nonce_size(&self) -> usize {
+        unreachable!()
+    }
+    fn kdf_extract(&self, _salt: &[u8], _ikm: &[u8]) -> Result<Zeroizing<Vec<u8>>, RngErr> {
+        unreachable!()
+    }
+    fn kdf_expand(&self, _prk: &[u8], _info: &[u8], _len: usize) -> Result<Zeroizing<Vec<u8>>, RngErr> {
+        unreachable!()
+    }
+    fn kdf_extract_size(&self) -> usize {
+        unreachable!()
+    }
+    fn hpke_seal(
+        &self,
+        _remote_key: &HpkePublicKey,
+        _info: &[u8],
+        _aad: Option<&[u8]>,
+        _pt: &[u8],
+    ) -> Result<HpkeCiphertext, RngErr> {
+        unreachable!()
+    }
+    fn hpke_seal_psk(
+        &self,
+        _remote_key: &HpkePublicKey,
+        _info: &[u8],
+        _aad: Option<&[u8]>,
+        _pt: &[u8],
+        _psk: HpkePsk<'_>,
+    ) -> Result<HpkeCiphertext, RngErr> {
+        unreachable!()
+    }
+    fn hpke_open(
+        &self,
+        _ciphertext: &HpkeCiphertext,
+        _local_secret: &HpkeSecretKey,
+        _local_public: &HpkePublicKey,
+        _info: &[u8],
+        _aad: Option<&[u8]>,
+    ) -> Result<Zeroizing<Vec<u8>>, RngErr> {
+        unreachable!()
+    }
+    fn hpke_open_psk(
+        &self,
+        _ciphertext: &HpkeCiphertext,
+        _local_secret: &HpkeSecretKey,
+        _local_public: &HpkePublicKey,
+        _info: &[u8],
+        _aad: Option<&[u8]>,
+        _psk: HpkePsk<'_>,
+    ) -> Result<Zeroizing<Vec<u8>>, RngErr> {
+        unreachable!()
+    }
+    fn hpke_setup_s(
+        &self,
+        _remote_key: &HpkePublicKey,
+        _info: &[u8],
+    ) -> Result<(Vec<u8>, NoCtx), RngErr> {
+        unreachable!()
+    }
+    fn hpke_setup_r(
+        &self,
+        _kem_output: &[u8],
+        _local_secret: &HpkeSecretKey,
+        _local_public: &HpkePublicKey,
+        _info: &[u8],
+    ) -> Result<NoCtx, RngErr> {
+        unreachable!()
+    }
+    fn kem_derive(&self, _ikm: &[u8]) -> Result<(HpkeSecretKey, HpkePublicKey), RngErr> {
+        unreachable!()
+    }
+    fn kem_generate(&self) -> Result<(HpkeSecretKey, HpkePublicKey), RngErr> {
+        unreachable!()
+    }
+    fn kem_public_key_validate(&self, _key: &HpkePublicKey) -> Result<(), RngErr> {
+        unreachable!()
+    }
+    fn random_bytes(&self, out: &mut [u8]) -> Result<(), RngErr> {
+        // the guard asks for exactly REUSE_GUARD_SIZE bytes
+        assert!(out.len() == REUSE_GUARD_SIZE);
+        if self.fail {
+            return Err(RngErr);
+        }
+        out.copy_from_slice(&self.fill);
+        Ok(())
+    }
+    fn signature_key_generate(&self) -> Result<(SignatureSecretKey, SignaturePublicKey), RngErr> {
+        unreachable!()
+    }
+    fn signature_key_derive_public(&self, _k: &SignatureSecretKey) -> Result<SignaturePublicKey, RngErr> {
+        unreachable!()
+    }
+    fn sign(&self, _k: &SignatureSecretKey, _data: &[u8]) -> Result<Vec<u8>, RngErr> {
+        unreachable!()
+    }
+    fn verify(&self, _k: &SignaturePublicKey, _sig: &[u8], _data: &[u8]) -> Result<(), RngErr> {
+        unreachable!()
+    }
+}
+
+/// ReuseGuard::random(provider):
+///   ensures  provider.random_bytes fails  ==> Err (no guard is fabricated)
+///            otherwise all 4 guard bytes are exactly the 4 bytes the provider's RNG
+///            produced (no byte of the guard is constant), and the RNG is asked once for
+///            exactly 4 bytes and nothing else of the provider is touched.
+#[kani::proof]
+#[kani::unwind(6)]
+fn c05_reuse_guard_random() {
+    let p = RngOnly { fill: kani::any(), fail: kani::any() };
+    match ReuseGuard::random(&p) {
+        Ok(g) => {
+            assert!(!p.fail);
+            let bytes: [u8; REUSE_GUARD_SIZE] = g.into();
+            assert!(bytes == p.fill);
+        }
+        Err(_) => assert!(p.fail),
+    }
+    kani::cover!(p.fail);
+    kani::cover!(!p.fail && p.fill[0] != 0 && p.fill[3] != 0);
+}
